@@ -307,7 +307,7 @@ macro_rules! eval_dyn_mentioned {
             let state = SharedState::new(map, if strict { FallbackMode::Error } else { FallbackMode::Unmock });
             let g: usize = kani::any();
             sh::set_ordered_index(&state, g);
-            let fm = state.fn_mockers.values().next().unwrap();
+            let fm = state.fn_mockers.first_key_value().unwrap().1;
             let info = any_info();
             let ctx = DynCtx { info, shared_state: &state, input_debugger: &no_inputs };
             let matcher = |p: &CallPattern, _rep: Option<&mut MismatchReporter>| -> PatternResult<bool> {
